@@ -17,7 +17,7 @@ EXPLANATION = (
     "whole returned block; forwarding impls forward zeroed->zeroed. C02.R4: functions reachable from the "
     "non-reallocating arena operations (allocate, deallocate, reserve, reset*, scope enter/exit, claim/reclaim, "
     "chunk creation) perform no raw memory write other than the construction of a fresh chunk header. "
-    "Not decided: the byte values themselves.")
+    "Not decided: the byte values themselves. C02.R9: position writes and alloc_try_with's unchanged-position test after a user callback use a chunk handle read after the callback.")
 
 LAYOUT = "core::alloc::Layout"
 
